@@ -619,4 +619,20 @@ impl<T: Deref<Target = [Cell<Value>]>> ReadHandle<'_, T> {
         to_set.set(Value::stale());
         was_stale
     }
+
+    /// Overwrite the contents of `row` with `vals`.
+    ///
+    /// # Safety
+    /// Same requirements as [`ReadHandle::set_stale_shared`]: no concurrent access to `row`, which
+    /// must be in bounds of the initial buffer or of a previously completed write.
+    pub(crate) unsafe fn overwrite_row_shared(&self, row: RowId, vals: &[Value]) {
+        debug_assert_eq!(vals.len(), self.buf.n_columns);
+        let cells: &[Cell<Value>] = &self.data;
+        let cell_ptr: *const Cell<Value> = cells.as_ptr();
+        for (i, val) in vals.iter().enumerate() {
+            let cell: &Cell<Value> =
+                unsafe { &*cell_ptr.add(row.index() * self.buf.n_columns + i) };
+            cell.set(*val);
+        }
+    }
 }
